@@ -2,7 +2,8 @@
 From Coq Require Import ZArith List Bool Lia PeanoNat.
 From FT Require Import Model.Base Model.Obs Model.Store Model.StoreCheck Model.C05Populate
                        Model.C05PopulateCheck Proofs.ObsP Proofs.StoreWF Proofs.StoreMap
-                       Proofs.StoreCheckP Proofs.C05PositionsP Proofs.C05PopulateP.
+                       Proofs.StoreCheckP Proofs.StoreMirror Proofs.StoreMirrorCheck
+                       Proofs.C05PositionsP Proofs.C05PopulateP Proofs.C05MirrorP.
 Import ListNotations.
 Open Scope Z_scope.
 
@@ -16,8 +17,8 @@ Proof.
 Qed.
 
 (* the whole run on a well-formed tensor state *)
-Theorem populate_spec sp bd a s :
-  wf_st s -> wf_tree (nranks s) a = true ->
+Theorem populate_spec sp bd rb a s :
+  rb_ok bd rb -> wf_st s -> wf_tree (nranks s) a = true ->
   let n := nranks s in
   let dz := s_d s in
   let r := populate sp bd a s in
@@ -27,14 +28,15 @@ Theorem populate_spec sp bd a s :
   /\ (forall q, length q = n ->
         lookup_i dz q es' = apply_wr (wr_at n n sp bd 0 [] (sub_of a) q) (lookup_i dz q es))
   /\ (forall c, ~ In c (map fst (a_presents n sp 0 (sub_of a))) -> assoc c es' = assoc c es)
-  /\ (forall c t, assoc c es = None -> assoc c es' = Some t -> i_is_empty dz t = false)
-  /\ raw_ok n n dz sp bd 0 [] (sub_of a) (efib es) (efib es') = true
+  /\ (forall c t, assoc c es = None -> assoc c es' = Some t ->
+        i_is_empty dz t = false \/ rb [c] = true)
+  /\ raw_ok n n dz sp bd rb 0 [] (sub_of a) (efib es) (efib es') = true
   /\ map ev3 (snd r) = exp_evs n n dz sp bd 0 [] (sub_of a) (efib es).
 Proof.
-  intros (id & ow & es0 & Hr & Hn & Hw) Ha. cbv zeta. unfold populate.
+  intros Hrb (id & ow & es0 & Hr & Hn & Hw) Ha. cbv zeta. unfold populate.
   assert (Hre : root_es s = es0) by (unfold root_es; rewrite Hr; reflexivity).
   rewrite Hre.
-  pose proof (pop_RS (nranks s) (s_d s) sp bd (nranks s) O (Nat.add_0_l _) [] a (fun e => e)
+  pose proof (pop_RS (nranks s) (s_d s) sp bd rb Hrb (nranks s) O (Nat.add_0_l _) [] a (fun e => e)
                      es0 (s_next s) (s_ranks s) Hn Hw Ha) as H.
   cbv zeta in H.
   destruct (pop (nranks s) (nranks s) (s_d s) sp bd 0 [] a (fun e => e) es0 (s_next s) (s_ranks s))
@@ -103,6 +105,28 @@ Proof. unfold ev3_eqb. rewrite path_eqb_refl, !tree_eqb_refl. reflexivity. Qed.
 Lemma root_node s : wf_st s -> erase (s_root s) = Node (efib (root_es s)).
 Proof. intros (id & ow & es & Hr & _ & _). unfold root_es. rewrite Hr. reflexivity. Qed.
 
+Lemma is_prefix_refl p : is_prefix p p = true.
+Proof. induction p as [|x p IH]; [reflexivity|]. cbn [is_prefix]. rewrite Z.eqb_refl, IH. reflexivity. Qed.
+
+Lemma is_prefix_app_l : forall p r q, is_prefix (p ++ r) q = true -> is_prefix p q = true.
+Proof.
+  induction p as [|x p IH]; intros r q H; [reflexivity|]. destruct q as [|y q]; [discriminate|].
+  cbn [app is_prefix] in *. apply andb_true_iff in H. destruct H as [H1 H2]. rewrite H1. cbn [andb].
+  eapply IH. exact H2.
+Qed.
+
+Lemma rb_of_ok l : rb_ok (bd_of l) (rb_of l).
+Proof.
+  split.
+  - intros p H. unfold bd_of in H. destruct (find (fun pa => path_eqb p (fst pa)) l) as [pa|] eqn:Hf;
+      [|discriminate].
+    apply find_some in Hf. destruct Hf as [Hin Hp]. apply path_eqb_eq in Hp.
+    unfold rb_of. apply existsb_exists. exists pa. split; [exact Hin|]. rewrite H, <- Hp. apply is_prefix_refl.
+  - intros p c H. unfold rb_of in *. apply existsb_exists in H. destruct H as [pa [Hin H]].
+    apply andb_true_iff in H. destruct H as [H1 H2]. apply existsb_exists. exists pa. split; [exact Hin|].
+    rewrite H1. cbn [andb]. eapply is_prefix_app_l. exact H2.
+Qed.
+
 (* the proved part of the oracle accepts the model's own observation, for every case *)
 Theorem c05_model_core c :
   c05_wf c = true ->
@@ -112,7 +136,7 @@ Proof.
   unfold c05_wf in Hwf. repeat (apply andb_true_iff in Hwf; destruct Hwf as [Hwf ?]).
   rename Hwf into Hn. rename H3 into Hz. rename H2 into Ha.
   destruct (init_ok (k_n c) (k_dz c) (k_z c) Hn Hz) as [Hwz Hnz].
-  pose proof (populate_spec (k_sp c) (bd_of (k_body c)) (k_a c) _ Hwz) as P.
+  pose proof (populate_spec (k_sp c) (bd_of (k_body c)) (rb_of (k_body c)) (k_a c) _ (rb_of_ok _) Hwz) as P.
   rewrite Hnz, s_d_init in P. specialize (P Ha). cbv zeta in P.
   destruct P as (P1 & P2 & P3 & P4 & P5 & P6).
   pose proof (root_node _ Hwz) as Hz0. rewrite erase_init in Hz0.
@@ -147,8 +171,8 @@ Proof.
   apply Nat.ltb_lt. exact Hn.
 Qed.
 
-Theorem populate_tree_spec sp bd a s :
-  wf_st s -> wf_tree (nranks s) a = true ->
+Theorem populate_tree_spec sp bd rb a s :
+  rb_ok bd rb -> wf_st s -> wf_tree (nranks s) a = true ->
   let n := nranks s in
   let dz := s_d s in
   let zb := erase (s_root s) in
@@ -156,11 +180,11 @@ Theorem populate_tree_spec sp bd a s :
   wf_tree n za = true
   /\ (forall q, length q = n ->
         value_at dz q za = apply_wr (wr_at n n sp bd 0 [] (sub_of a) q) (value_at dz q zb))
-  /\ raw_ok n n dz sp bd 0 [] (sub_of a) (sub_of zb) (sub_of za) = true
+  /\ raw_ok n n dz sp bd rb 0 [] (sub_of a) (sub_of zb) (sub_of za) = true
   /\ map ev3 (snd (populate sp bd a s)) = exp_evs n n dz sp bd 0 [] (sub_of a) (sub_of zb).
 Proof.
-  intros Hws Ha. cbv zeta.
-  destruct (populate_spec sp bd a s Hws Ha) as (P1 & P2 & _ & _ & P5 & P6).
+  intros Hrb Hws Ha. cbv zeta.
+  destruct (populate_spec sp bd rb a s Hrb Hws Ha) as (P1 & P2 & _ & _ & P5 & P6).
   pose proof (root_node s Hws) as Hb.
   assert (Hz1 : erase (s_root (fst (populate sp bd a s)))
                 = Node (efib (root_es (fst (populate sp bd a s))))).
@@ -216,4 +240,214 @@ Proof.
       * intros [t [Hin Hne]]. exists (c, t). split; [reflexivity|]. apply filter_In.
         split; [exact Hin|]. cbn [snd]. rewrite Hne. reflexivity.
     + intros c t Hin. right. split; [reflexivity|]. apply filter_In in Hin. tauto.
+Qed.
+
+(* ---------- throughout: every yield and the end ---------- *)
+Definition state_ok (s0 s : st) (path : list Z) (shown : option itree) : Prop :=
+  wf_st s /\ Mirror s /\ nranks s = nranks s0
+  /\ match shown with
+     | Some zp => subtree_at path (erase (s_root s)) = Some (erase zp)
+     | None => True
+     end.
+
+Theorem populate_through sp bd a s :
+  wf_st s -> Mirror s -> wf_tree (nranks s) a = true ->
+  let r := populate sp bd a s in
+  state_ok s (fst r) [] None
+  /\ Forall (fun e => state_ok s (with_root s (e_root e) (e_nx e) (e_rk e)) (e_path e) (Some (e_z e)))
+            (snd r).
+Proof.
+  intros Hws HM Ha. cbv zeta. pose proof Hws as (id & ow & es0 & Hr & Hn & Hw).
+  unfold populate.
+  assert (Hre : root_es s = es0) by (unfold root_es; rewrite Hr; reflexivity).
+  rewrite Hre.
+  pose proof (pop_RT (nranks s) (s_d s) sp bd es0 (s_next s) (s_ranks s) (nranks s) O (Nat.add_0_l _)
+                     [] a (fun e => e) es0 (s_next s) (s_ranks s) Hn Hw Ha eq_refl) as H.
+  cbv zeta in H.
+  destruct (pop (nranks s) (nranks s) (s_d s) sp bd 0 [] a (fun e => e) es0 (s_next s) (s_ranks s))
+    as [[[es' nx] rk] evs].
+  cbn [fst snd] in *. destruct H as (T1 & T2 & _ & T4).
+  assert (Hst : forall root nx' rk', wf_fib (nranks s) 0 root = true ->
+            wdelta 0 es0 (s_next s) (s_ranks s) root nx' rk' ->
+            wf_st (with_root s root nx' rk') /\ Mirror (with_root s root nx' rk')
+            /\ nranks (with_root s root nx' rk') = nranks s
+            /\ erase (s_root (with_root s root nx' rk')) = Node (efib root)).
+  { intros root nx' rk' Hwr Hd.
+    assert (Hl : length rk' = nranks s) by (destruct Hd as (_ & H2 & _); exact H2).
+    split; [apply wf_st_with_root; assumption|].
+    split; [eapply wmirror_with_root; eassumption|].
+    unfold with_root, nranks. rewrite Hr. cbn [s_ranks s_root]. split; [exact Hl|reflexivity]. }
+  split.
+  - destruct (Hst es' nx rk T1 T2) as (A1 & A2 & A3 & _). split; [exact A1|]. split; [exact A2|]. split; [exact A3|exact I].
+  - assert (HP : PlugOK (nranks s) es0 (s_next s) (s_ranks s) (fun e => e) 0 [] es0 (s_next s) (s_ranks s)).
+    { intros e1 nx1 rk1 Hw1 Hd1. split; [exact Hw1|]. split; [exact Hd1|]. intros p t Hp. exact Hp. }
+    specialize (T4 HP). eapply Forall_impl; [|exact T4].
+    intros e (E1 & E2 & E3). destruct (Hst _ _ _ E1 E2) as (A1 & A2 & A3 & A4).
+    split; [exact A1|]. split; [exact A2|]. split; [exact A3|]. rewrite A4. exact E3.
+Qed.
+
+(* the whole oracle accepts the model's own observation, for every well-formed case *)
+Theorem c05_model_holds c : c05_wf c = true -> holds c05_checker c (model c05_checker c) = true.
+Proof.
+  intros Hwf. destruct (c05_model_core c Hwf) as [Hdec Hcore].
+  cbn [holds model c05_checker] in *. unfold c05_holds. rewrite Hwf. cbn [andb].
+  rewrite Hdec. unfold c05_holds_obs. rewrite Hcore. cbn [andb].
+  unfold c05_wf in Hwf. repeat (apply andb_true_iff in Hwf; destruct Hwf as [Hwf ?]).
+  rename Hwf into Hn. rename H3 into Hz. rename H2 into Ha.
+  destruct (init_ok (k_n c) (k_dz c) (k_z c) Hn Hz) as [Hwz Hnz].
+  pose proof (init_mirror_gen (k_n c) (k_dz c) (k_z c)) as HMz.
+  pose proof (populate_through (k_sp c) (bd_of (k_body c)) (k_a c) _ Hwz HMz) as P.
+  rewrite Hnz in P. specialize (P Ha). cbv zeta in P. destruct P as [Pend Pevs].
+  set (sz := init (k_n c) (k_dz c) (k_z c)) in *.
+  set (r := populate (k_sp c) (bd_of (k_body c)) (k_a c) sz) in *.
+  assert (Hall : forall s path shown, state_ok sz s path shown ->
+            wf_tree (k_n c) (o_tree (ostate_of s)) = true /\ mirror_state (k_n c) (ostate_of s) = true).
+  { intros s path shown (A1 & A2 & A3 & _). rewrite <- Hnz, <- A3. split.
+    - apply wf_st_tree. exact A1.
+    - exact (mirror_state_ok s A1 A2). }
+  assert (Hz0 : state_ok sz sz [] None).
+  { split; [exact Hwz|]. split; [exact HMz|]. split; [reflexivity|exact I]. }
+  assert (Hstates : forall os, In os (oo_z0 (model_obs c) :: map oe_st (oo_evs (model_obs c)) ++ [oo_z1 (model_obs c)]) ->
+            wf_tree (k_n c) (o_tree os) = true /\ mirror_state (k_n c) os = true).
+  { intros os Hin. unfold model_obs in Hin. cbn [oo_z0 oo_evs oo_z1] in Hin. fold sz in Hin. fold r in Hin.
+    destruct Hin as [Heq|Hin]; [subst os; eapply Hall; exact Hz0|].
+    apply in_app_or in Hin. destruct Hin as [Hin|[Heq|[]]].
+    - rewrite map_map in Hin. apply in_map_iff in Hin. destruct Hin as [e [Heq Hin]]. subst os.
+      rewrite Forall_forall in Pevs. cbn [oev_of oe_st]. eapply Hall. exact (Pevs e Hin).
+    - subst os. eapply Hall. exact Pend. }
+  apply andb_true_iff. split; [apply andb_true_iff; split; [apply andb_true_iff; split|]|].
+  - unfold c05_ref_ok, model_obs. cbn [oo_evs]. fold sz. fold r. apply forallb_forall.
+    intros oe Hin. apply in_map_iff in Hin. destruct Hin as [e [Heq Hin]]. subst oe.
+    rewrite Forall_forall in Pevs. destruct (Pevs e Hin) as (_ & _ & _ & Hsub).
+    cbn [oev_of oe_path oe_st oe_z ostate_of o_tree]. unfold snap_of. rewrite Hsub.
+    cbn [topt_eqb]. apply tree_eqb_refl.
+  - unfold c05_wf_ok. apply forallb_forall. intros os Hin. exact (proj1 (Hstates os Hin)).
+  - unfold c05_member_ok. apply forallb_forall. intros os Hin. exact (proj2 (Hstates os Hin)).
+  - unfold c05_active_ok, model_obs. cbn [oo_evs]. apply forallb_forall.
+    intros oe Hin. apply in_map_iff in Hin. destruct Hin as [e [Heq Hin]]. subst oe.
+    cbn [oev_of oe_act oe_path act_of fst snd]. unfold shape_at, k_sp. cbn [sp_shape].
+    rewrite !Z.eqb_refl. reflexivity.
+Qed.
+
+(* ---------- what raw_ok means, fiber by fiber ---------- *)
+Lemma tree_eqb_eq : forall a b, tree_eqb a b = true -> a = b.
+Proof.
+  induction a as [v|es IH] using tree_ind'; intros [w|eb] H; cbn [tree_eqb] in H; try discriminate.
+  - apply Z.eqb_eq in H. subst. reflexivity.
+  - f_equal. revert eb H. induction es as [|[c t] es IHes]; intros [|[c' t'] eb] H; try discriminate;
+      [reflexivity|].
+    inversion IH as [|? ? Ht Hes]; subst. cbn [snd] in Ht.
+    apply andb_true_iff in H. destruct H as [H H3]. apply andb_true_iff in H. destruct H as [H1 H2].
+    apply Z.eqb_eq in H1. subst c'. rewrite (Ht t' H2). f_equal. apply IHes; assumption.
+Qed.
+
+Lemma memZ_notin c l : ~ In c l -> memZ c l = false.
+Proof.
+  intros H. unfold memZ. destruct (existsb (Z.eqb c) l) eqn:E; [|reflexivity].
+  apply existsb_exists in E. destruct E as [x [Hin Hx]]. apply Z.eqb_eq in Hx. subst x. contradiction.
+Qed.
+
+Lemma subtree_at_one c es : subtree_at [c] (Node es) = lookup c es.
+Proof. cbn [subtree_at]. destruct (lookup c es); reflexivity. Qed.
+
+Lemma subtree_at_sub_of p t : p <> [] -> subtree_at p t = subtree_at p (Node (sub_of t)).
+Proof. intros Hp. destruct t as [v|es]; [|reflexivity]. destruct p; [contradiction|reflexivity]. Qed.
+
+Lemma subtree_at_nil_fib p : p <> [] -> subtree_at p (Node []) = None.
+Proof. intros Hp. destruct p; [contradiction|reflexivity]. Qed.
+
+Lemma in_fst_lookup c : forall (l : fib), In c (map fst l) -> exists t, lookup c l = Some t.
+Proof.
+  induction l as [|[x r] l IH]; intros H; [destruct H|]. cbn [lookup map fst] in *.
+  destruct (c =? x) eqn:E; [eexists; reflexivity|].
+  destruct H as [H|H]; [subst x; rewrite Z.eqb_refl in E; discriminate|apply IH; exact H].
+Qed.
+
+(* at the fiber itself *)
+Lemma raw_ok_here k' n dz sp bd rb lvl path aes zb za c :
+  raw_ok (S k') n dz sp bd rb lvl path aes zb za = true ->
+  (~ In c (map fst (a_presents n sp lvl aes)) -> lookup c za = lookup c zb)
+  /\ (lookup c zb = None -> forall t, lookup c za = Some t ->
+        is_empty dz t = false \/ rb (path ++ [c]) = true).
+Proof.
+  intros H. rewrite raw_ok_S in H. cbv zeta in H.
+  apply andb_true_iff in H. destruct H as [H H3]. apply andb_true_iff in H. destruct H as [H1 H2].
+  rewrite forallb_forall in H1, H2, H3.
+  assert (Hout : ~ In c (map fst (a_presents n sp lvl aes)) -> lookup c za = lookup c zb).
+  { intros Hc. pose proof (memZ_notin _ _ Hc) as Hm.
+    destruct (lookup c zb) as [tb|] eqn:Hb.
+    - specialize (H1 (c, tb) (lookup_In c zb tb Hb)). cbn [fst snd] in H1. rewrite Hm in H1. cbn [orb] in H1.
+      destruct (lookup c za) as [ta|]; [|discriminate]. cbn [topt_eqb] in H1.
+      rewrite (tree_eqb_eq _ _ H1). reflexivity.
+    - destruct (lookup c za) as [ta|] eqn:Ha; [|reflexivity].
+      specialize (H2 (c, ta) (lookup_In c za ta Ha)). cbn [fst snd] in H2. rewrite Hm, Hb in H2. discriminate. }
+  split; [exact Hout|].
+  intros Hb t Ha.
+  destruct (in_dec Z.eq_dec c (map fst (a_presents n sp lvl aes))) as [Hin|Hnin].
+  - destruct (in_fst_lookup c _ Hin) as [bp Hbp].
+    specialize (H3 (c, bp) (lookup_In c _ bp Hbp)). unfold elem_ok in H3. cbn [fst snd] in H3.
+    rewrite Hb, Ha in H3. apply andb_true_iff in H3. destruct H3 as [H3 _].
+    destruct (rb (path ++ [c])); [right; reflexivity|left].
+    destruct (is_empty dz t); [discriminate|reflexivity].
+  - rewrite (Hout Hnin), Hb in Ha. discriminate.
+Qed.
+
+(* at every fiber the nest iterates over *)
+Theorem raw_ok_meaning : forall pth k n dz sp bd rb lvl path aes zb za aes' c,
+  raw_ok k n dz sp bd rb lvl path aes zb za = true ->
+  iter_at k n sp bd lvl path aes pth = Some aes' ->
+  (~ In c (map fst (a_presents n sp (lvl + length pth) aes')) ->
+     subtree_at (pth ++ [c]) (Node za) = subtree_at (pth ++ [c]) (Node zb))
+  /\ (subtree_at (pth ++ [c]) (Node zb) = None ->
+      forall t, subtree_at (pth ++ [c]) (Node za) = Some t ->
+      is_empty dz t = false \/ rb (path ++ pth ++ [c]) = true).
+Proof.
+  induction pth as [|c0 pth IH]; intros k n dz sp bd rb lvl path aes zb za aes' c Hraw Hit;
+    (destruct k as [|k']; [discriminate|]); cbn [iter_at] in Hit.
+  - inversion Hit; subst aes'. cbn [app length]. rewrite Nat.add_0_r, !subtree_at_one.
+    apply (raw_ok_here k' n dz sp bd rb lvl path aes zb za c Hraw).
+  - destruct (lookup c0 (a_presents n sp lvl aes)) as [bp|] eqn:Hbp; [|discriminate].
+    destruct (bd (path ++ [c0])) eqn:Hbd; try discriminate.
+    destruct (Nat.eqb (S lvl) n) eqn:Hleaf; [discriminate|].
+    pose proof Hraw as Hraw0. rewrite raw_ok_S in Hraw. cbv zeta in Hraw.
+    apply andb_true_iff in Hraw. destruct Hraw as [_ H3]. rewrite forallb_forall in H3.
+    specialize (H3 (c0, bp) (lookup_In c0 _ bp Hbp)). unfold elem_ok in H3. cbn [fst snd] in H3.
+    rewrite Hbd, Hleaf in H3. cbn [negb] in H3.
+    assert (Hne : pth ++ [c] <> []) by (destruct pth; discriminate).
+    replace (lvl + length (c0 :: pth))%nat with (S lvl + length pth)%nat by (cbn [length]; lia).
+    replace (path ++ (c0 :: pth) ++ [c]) with ((path ++ [c0]) ++ pth ++ [c])
+      by (rewrite <- app_assoc; reflexivity).
+    cbn [app subtree_at].
+    destruct (lookup c0 zb) as [tb|] eqn:Hb; destruct (lookup c0 za) as [ta|] eqn:Ha.
+    + rewrite (subtree_at_sub_of _ ta Hne), (subtree_at_sub_of _ tb Hne).
+      exact (IH k' n dz sp bd rb (S lvl) (path ++ [c0]) (sub_of bp) (sub_of tb) (sub_of ta) aes' c H3 Hit).
+    + destruct (IH k' n dz sp bd rb (S lvl) (path ++ [c0]) (sub_of bp) (sub_of tb) [] aes' c H3 Hit) as [I1 I2].
+      rewrite (subtree_at_nil_fib _ Hne) in I1, I2.
+      rewrite <- (subtree_at_sub_of _ tb Hne) in I1, I2. split; [exact I1|exact I2].
+    + apply andb_true_iff in H3. destruct H3 as [_ H3].
+      destruct (IH k' n dz sp bd rb (S lvl) (path ++ [c0]) (sub_of bp) [] (sub_of ta) aes' c H3 Hit) as [I1 I2].
+      rewrite (subtree_at_nil_fib _ Hne) in I1, I2.
+      rewrite <- (subtree_at_sub_of _ ta Hne) in I1, I2.
+      split; [exact I1|intros _; apply I2; reflexivity].
+    + split; [reflexivity|]. intros _ t Ht. discriminate.
+Qed.
+
+(* the two clauses for the model's run, at every iterated fiber *)
+Theorem populate_levels sp bd rb a s pth aes' c :
+  rb_ok bd rb -> wf_st s -> wf_tree (nranks s) a = true ->
+  iter_at (nranks s) (nranks s) sp bd 0 [] (sub_of a) pth = Some aes' ->
+  let zb := erase (s_root s) in
+  let za := erase (s_root (fst (populate sp bd a s))) in
+  (~ In c (map fst (a_presents (nranks s) sp (length pth) aes')) ->
+     subtree_at (pth ++ [c]) za = subtree_at (pth ++ [c]) zb)
+  /\ (subtree_at (pth ++ [c]) zb = None ->
+      forall t, subtree_at (pth ++ [c]) za = Some t ->
+      is_empty (s_d s) t = false \/ rb (pth ++ [c]) = true).
+Proof.
+  intros Hrb Hws Ha Hit. cbv zeta.
+  destruct (populate_tree_spec sp bd rb a s Hrb Hws Ha) as (Hwf' & _ & Hraw & _).
+  assert (Hne : pth ++ [c] <> []) by (destruct pth; discriminate).
+  rewrite (subtree_at_sub_of _ (erase (s_root s)) Hne).
+  rewrite (subtree_at_sub_of _ (erase (s_root (fst (populate sp bd a s)))) Hne).
+  exact (raw_ok_meaning pth _ _ _ _ _ rb 0 [] _ _ _ aes' c Hraw Hit).
 Qed.
